@@ -45,7 +45,7 @@ type c04Params struct {
 func (c04) ID() string    { return "C04" }
 func (c04) Level() string { return "exploration" }
 func (c04) Rule() string {
-	return "each case: stack x suite x client-auth x which side's SM2 key agreement is the harness's (the other side's built-in code is what is compared) x random application writes in both directions, on a full handshake followed by a resumed one. A passive wire monitor (package ref, no code shared with gotlcp) re-derives pre-master, master secret, key block and both Finished values from the captured bytes and opens every protected record of each direction with that direction's own key. A quarter of the stream-stack cases run the library (either role) against the independent reference endpoint instead of a second copy of itself: that endpoint picks random explicit GCM nonces and pads its CBC records with three extra blocks; handshake, both Finished values and data in both directions must work. distinct = distinct (stack, suite, auth, wrap side, write-size vectors); non-trivial = both handshakes completed and at least one protected application record per direction was opened"
+	return "each case: stack x suite x client-auth x which side's SM2 key agreement is the harness's (the other side's built-in code is what is compared) x random application writes in both directions, on a full handshake followed by a resumed one. A passive wire monitor (package ref, no code shared with gotlcp) re-derives pre-master, master secret, key block and both Finished values from the captured bytes and opens every protected record of each direction with that direction's own key. A quarter of the stream-stack cases run the library (either role) against the independent reference endpoint instead of a second copy of itself: that endpoint picks random explicit GCM nonces and pads its CBC records with three extra blocks; handshake, both Finished values and data in both directions must work; as ECDHE client it picks, in every second case, an ephemeral key that makes the pre-master secret begin with a zero byte. distinct = distinct (stack, suite, auth, wrap side, write-size vectors); non-trivial = both handshakes completed and at least one protected application record per direction was opened"
 }
 func (c04) Components() (real, stub []string) {
 	return []string{"tlcp/dtlcp client+server (instrumented): key agreement, PRF, key schedule, record protection", "lruSessionCache"},
@@ -594,6 +594,9 @@ func c04Foreign(c *Case, src *vs.Src, p *c04Params, r *Result) *Result {
 		rc = &EPConf{Suites: []uint16{p.Suite}, Certs: []string{"server_sig", "server_enc"}, ClientCAs: []string{"ca1"}}
 		o.SNI = "server.test"
 		script = []string{"CH", "rFLIGHT"}
+		// every second such case: the reference client picks its ephemeral key so that the agreed pre-master secret
+		// begins with a zero byte
+		o.GrindZero = IsECDHE(p.Suite) && len(p.C2S)%2 == 0
 		if IsECDHE(p.Suite) {
 			o.Certs, o.SigKey = ders("client_sig", "client_enc"), sm2Key("client_sig")
 			script = append(script, "CERT", "CKE", "CV")
